@@ -23,6 +23,8 @@ CHECKS = {
    "One writer and 4-31 readers cycling through every URL kind with seeded delays at the hook points, then Close while readers are active; race reports of the monitor's own process are parsed and de-duplicated; every 200 playlist is validated as a consistent snapshot; per-reader playlist sequences checked for monotone evolution; bodies of the same URI compared across readers."),
  "C20": ("qmon", "exploration", "systematic schedule enumeration of the real queue at its hooked preemption points + porcupine linearizability check of every recorded history + race detector stress",
    "Producer scripts over {push, waitUntilSizeIsBelow(0|1)} x consumer pull scripts x cancellation are executed on the real clientSegmentQueue; at the two unlock->wait windows and at operation boundaries every choice of which actor advances is enumerated depth-first (exhaustive for the stated bounds); each history is checked against a FIFO model with porcupine and the quiescent wake-up oracle (blocked although the condition holds); then free-running stress under the race detector."),
+ "C09": ("e2emon", "exploration", "runtime monitoring under the race detector: the real Client wired in-process to the real Muxer; delivered units matched (unique payload tags) against the written ones by a reference-model oracle",
+   "Generated write sequences (all variants, every codec the muxer accepts, renditions with names / languages / defaults, parameter changes) are written by a demand-gated (MPEG-TS, fMP4) or delivery-gated (Low-Latency) writer while a Client reads Muxer.Handle through an in-process transport; tracks, codec parameters, rendition attributes, order / bytes / exactly-once of every delivered unit, PTS / DTS relative to the first delivered leading unit and AbsoluteTime are checked."),
  "C10": ("climon", "exploration", "runtime monitoring: the real Client run against an in-process origin (scripted playlists + synthesized media), request log and callback log checked by a reference-model oracle",
    "Well-formed MPEG-TS / fMP4 streams are synthesized with mediacommon writers and a hand-written playlist printer (timestamp bases incl. 2^40 and the 33-bit wrap, PTS offsets, several fragments per segment, renditions with different timescales, byte ranges, date-times); every unit delivered through OnData* is matched (unique payload tags) against the synthesized one: order, bytes, normalized PTS/DTS +-1 tick, drop rule at the origin, AbsoluteTime."),
  "C11": ("climon", "exploration", "runtime monitoring: the real Client run against an in-process origin (scripted playlists + synthesized media), request log and callback log checked by a reference-model oracle",
@@ -70,11 +72,12 @@ m = {
    {"name": "plmon", "path": "/verif/cmd/vmon/playlist.go", "serves_properties": [k for k,v in CHECKS.items() if v[0]=="plmon"], "kind_free_text": "playlist codec monitor + native fuzz targets (internal/plx, internal/plfuzz, internal/m3u8x)"},
    {"name": "llmon", "path": "/verif/cmd/vmon/c06.go", "serves_properties": ["C06","C07","C08"], "kind_free_text": "concurrent muxer monitors (c06.go step-controlled, c07.go forced Close schedules, c08.go race-detector stress; internal/hx hook dispatcher, internal/racelog)"},
    {"name": "qmon", "path": "/verif/cmd/vmon/c20.go", "serves_properties": ["C20"], "kind_free_text": "segment queue schedule enumerator + porcupine + stress"},
+   {"name": "e2emon", "path": "/verif/cmd/vmon/c09.go", "serves_properties": ["C09"], "kind_free_text": "Muxer <-> Client end-to-end monitor"},
    {"name": "climon", "path": "/verif/cmd/vmon/c11.go", "serves_properties": ["C10","C11","C12","C13"], "kind_free_text": "client monitors (c10.go, c11.go, c12.go, c13.go; internal/origin in-process origin + synth, internal/clirun observer, internal/clifuzz fuzz target)"},
    {"name": "stomon", "path": "/verif/cmd/vmon/storage.go", "serves_properties": ["C17"], "kind_free_text": "storage lock-step model monitor"},
  ],
  "checks": checks,
- "not_applicable": [{"property_id": p["id"], "reason": "monitor not built yet (planned in DESIGN.md §9); no claim is made"} for p in props if p["id"] not in CHECKS],
+ "not_applicable": [{"property_id": p["id"], "reason": "no claim is made"} for p in props if p["id"] not in CHECKS],
  "notes": "Runtime monitoring and sanitizers only; see DESIGN.md. Known findings: KNOWN_FINDINGS.txt.",
 }
 json.dump(m, open('/verif/MANIFEST.json', 'w'), indent=1)
